@@ -86,14 +86,9 @@ def run(ctx, crates):
             cache[f.path] = validation.checks_deep(ctx.prog, f)
             ctx.seen(f)
         cs = cache[f.path]
-        have = [c for c in cs if validation.norm(c["subject"], c["op"], c["other"]) == cond]
-        if len(have) < mincount:
-            # rename tolerance: the same operator and the same integer bound on exactly `mincount` checks of this function
-            parts = cond.rsplit(" ", 2)
-            if len(parts) == 3 and parts[2].lstrip("-").isdigit() and abs(int(parts[2])) >= 2:
-                alt = [c for c in cs if validation.norm("_", c["op"], c["other"]) == "_ %s %s" % (parts[1], parts[2])]
-                if len(alt) == mincount:
-                    have = alt
+        if ("mt", fsuffix) not in cache:
+            cache[("mt", fsuffix)] = validation.match_table(cs, [(c_, n_) for f_, c_, n_, _w, _s in TABLE if f_ == fsuffix], validation.deep_ref("limit", fsuffix))
+        have = cache[("mt", fsuffix)].get(cond, [])
         key = "%s|%s" % (f.path, cond)
         if len(have) >= mincount:
             ok = True
